@@ -311,8 +311,14 @@ func runC09(s *Sim) {
 		case 0: // new user under a container
 			nid++
 			u := user{fmt.Sprintf("u%d", nid), fmt.Sprintf("u%d@x.io", nid), fmt.Sprintf("pw%d", nid)}
-			if wl.Chance(1, 3) {
+			switch wl.Draw(9) {
+			case 0, 1, 2:
 				u.email = fmt.Sprintf("U%d@X.io", nid) // e-mails are compared as stored, letter case included
+			case 3: // legal addresses with characters that mean something to a query language or a pattern match
+				u.email = fmt.Sprintf("pat.o'neil%d@x.io", nid)
+			case 4:
+				u.email = []string{"\"q\"%d@x.io", "a%%_%d@x.io", "semi;--%d@x.io"}[wl.Draw(3)]
+				u.email = fmt.Sprintf(u.email, nid)
 			}
 			users = append(users, u)
 			parent := containers[wl.Draw(len(containers))]
@@ -383,7 +389,13 @@ func runC09(s *Sim) {
 			}
 			doLogin(u, pass)
 		case 7: // login with an unknown e-mail / empty credentials
-			doLogin(user{email: []string{"nobody@x.io", "", "admin@admin.com "}[wl.Draw(3)]}, []string{"", "admin"}[wl.Draw(2)])
+			// ... among them strings that are no address at all but would widen a query or a pattern they were pasted into
+			unknown := []string{"nobody@x.io", "", "admin@admin.com ", "' OR '1'='1", "x' OR type='email", "%", "admin@admin.com' --", "admin_admin.com"}
+			pw := []string{"", "admin"}[wl.Draw(2)]
+			if wl.Chance(1, 3) {
+				pw = users[wl.Draw(len(users))].pass
+			}
+			doLogin(user{email: unknown[wl.Draw(len(unknown))]}, pw)
 		case 8: // time passes (tokens age)
 			d := time.Duration(1+wl.Draw(100)) * time.Hour
 			add(login, fmt.Sprintf("sleep %s", d), func() { time.Sleep(d) })
